@@ -133,15 +133,16 @@ func (m *expirationMap[V]) cleanup(store store[V], policy *defaultPolicy[V], onE
 
 	for _, keys := range buckets {
 		for key, conflict := range keys {
-			expr := store.Expiration(key)
-			// Sanity check. Verify that the store agrees that this key is expired.
-			if expr.After(now) {
+			// Remove the entry only if the store agrees, at the moment of removal, that the
+			// expiration currently attached to this key has passed. An entry that was re-written
+			// with a later or no TTL (or deleted) since it was indexed here is left alone.
+			value, expr, ok := store.DelExpired(key, conflict, now)
+			if !ok {
 				continue
 			}
 
 			cost := policy.Cost(key)
 			policy.Del(key)
-			_, value := store.Del(key, conflict)
 
 			if onEvict != nil {
 				onEvict(&Item[V]{Key: key,
